@@ -397,11 +397,19 @@ class ResNetwork(GeoNetwork):
         <class 'numpy.ndarray'>
 
         """
+        # pseudo inverse via SVD: the Laplacian has exactly one zero mode per
+        # connected component, so exactly these are discarded instead of
+        # relying on a numerical cutoff (the default cutoff of pinv() keeps
+        # the zero mode for more than 25 nodes, a larger one discards genuine
+        # modes of networks with very different resistances)
+        U, s, Vh = np.linalg.svd(self.admittance_lapacian())
+        n_modes = len(s) - len(self.graph.connected_components())
+        s_inv = np.zeros_like(s)
+        s_inv[:n_modes] = 1.0 / s[:n_modes]
+        R = (Vh.conj().T * s_inv) @ U.conj().T
+
         # a sparse matrix for the admittance values
-        self.sparse_R = sparse.lil_matrix(
-            #  (the cutoff has to discard the zero mode of the Laplacian,
-            #  which the SVD returns as ~1e-13 for more than 25 nodes)
-            np.linalg.pinv(self.admittance_lapacian(), rcond=1e-10))
+        self.sparse_R = sparse.lil_matrix(R)
 
     def get_R(self):
         """Return the pseudo inverse of of the admittance Laplacian
